@@ -78,12 +78,22 @@ def sufficientRow (d : Deps) (r : Row) : Bool :=
     r.mustWritten.contains c ||
       r.written.all fun a => a == c || !(d.closure c).contains a
 
+/-- as `sufficientRow`, but the derived attributes selected by `skip` are not examined -/
+def sufficientRowBut (skip : String → Bool) (d : Deps) (r : Row) : Bool :=
+  d.derived.all fun c =>
+    skip c || r.mustWritten.contains c ||
+      r.written.all fun a => a == c || !(d.closure c).contains a
+
 /-- the rows of class `cls` -/
 def rowsOf (rows : List Row) (cls : String) : List Row := rows.filter fun r => r.cls == cls
 
 /-- every entry point of every class respects the dependency table of its class -/
 def sufficient (deps : String → Deps) (rows : List Row) : Bool :=
   rows.all fun r => sufficientRow (deps r.cls) r
+
+/-- `sufficient` with exemptions: `skip r c` = derived attribute `c` is not examined for row `r` -/
+def sufficientBut (skip : Row → String → Bool) (deps : String → Deps) (rows : List Row) : Bool :=
+  rows.all fun r => sufficientRowBut (skip r) (deps r.cls) r
 
 /-- the rows that break `sufficient`, as `(class, entry point, derived attribute, written attribute)`
     (diagnostic output for the harness; empty iff `sufficient`) -/
